@@ -5,9 +5,9 @@ SPEC = dict(
     level="proof",
     translators=[dict(cmd="tr_crc", out="Gen/Crc16Tab.v"), dict(cmd="tr_builders", out="Gen/Builders.v")],
     observers=[dict(cmd="obs_slot", imports=["Model.Slot", "Model.SlotGen"], case_type="Slot.case", check="SlotGen.check_case",
-                    n={"quick": 1200, "thorough": 120000}, shard=150),
+                    n={"quick": 1200, "thorough": 70000}, shard=150),
                dict(cmd="obs_builders", imports=["Model.BuilderGraph", "Model.BuilderSem", "Model.BuilderGen"], case_type="BuilderSem.case",
-                    check="BuilderGen.check_case", n={"quick": 400, "thorough": 20000}, shard=50, args=["-prop", "C18"])],
+                    check="BuilderGen.check_case", n={"quick": 400, "thorough": 4000}, shard=50, args=["-prop", "C18"])],
     rule="keys: brace edge cases (36 fixed), brace-heavy random strings, tagged keys, random bytes incl. NUL/0xFF (thorough: "
          "additionally all 65,536 two-byte keys); multi-key combinations through 16 real builder shapes (single and variadic key "
          "parameters, Arbitrary.Keys) on cluster and non-cluster builders with keys sharing a tag 2/3 of the time; SetSlot. "
